@@ -11,6 +11,11 @@ func PropC11(c *vs.Case, f Factory) error {
 	scn := GenScn(c, GenOpts{Kind: "composite", AllowRolling: false, AllowFinalize: true})
 	scn.Cfg.SSA = false
 	scn.Prog.StatusMode = c.Int(5)
+	if c.Prob(1, 6) {
+		// a hook that says "finalized" in every answer, sync answers included
+		scn.Prog.SyncFinalized = true
+		c.Class("sync-answer-says-finalized")
+	}
 	env, err := NewEnv(scn, f)
 	if err != nil {
 		return fmt.Errorf("harness: %v", err)
@@ -169,8 +174,10 @@ func PropC11(c *vs.Case, f Factory) error {
 			// parent gone or replaced: nothing must have been written to the new one (checked above)
 			continue
 		}
+		// a finalizer edit hands the code a freshly read parent; the status still reports the generation sent to the hook
+		statusOK := func(st any) bool { return vs.JSONEqual(st, want) }
 		if finalizerRemoved {
-			continue
+			c.Class("finalizer-edited-in-this-sync")
 		}
 		switch {
 		case fault == 3 && fired:
@@ -182,7 +189,7 @@ func PropC11(c *vs.Case, f Factory) error {
 		preStatusEqual := false
 		// find the pre-state of the first status PUT or, if none, the live object
 		if len(statusPuts) == 0 {
-			preStatusEqual = vs.JSONEqual(live["status"], want)
+			preStatusEqual = statusOK(live["status"])
 			if !preStatusEqual {
 				return withTrace(vs.Violf("C11/status-not-written", "hook status %v (with observedGeneration %v) differs from the live status %v but no status write was attempted", resp["status"], sentGen, live["status"]), t)
 			}
@@ -195,7 +202,7 @@ func PropC11(c *vs.Case, f Factory) error {
 				return withTrace(vs.Violf("C11/redundant-status-write", "%s sent although the status was already equal", r.String()), t)
 			}
 		}
-		if !vs.JSONEqual(live["status"], want) {
+		if !statusOK(live["status"]) {
 			lastPut := statusPuts[len(statusPuts)-1]
 			return withTrace(vs.Violf("C11/status-wrong", "after the sync the parent status is %v, want %v (hook status %v, generation sent to the hook %v; last status write: %s)", live["status"], want, resp["status"], sentGen, lastPut.String()), t)
 		}
